@@ -62,7 +62,40 @@ pub fn run(kind: &str, extra: &[String], items: &[String], timeout: Duration) ->
     run_batched(kind, extra, items, timeout, 128)
 }
 
+// CPU seconds (user + system) consumed so far by process `pid`, from /proc (robust against a loaded machine, unlike wall time)
+fn cpu_seconds(pid: u32) -> f64 {
+    let Ok(stat) = std::fs::read_to_string(format!("/proc/{pid}/stat")) else { return 0.0 };
+    let Some(rest) = stat.rsplit(')').next() else { return 0.0 };
+    let f: Vec<&str> = rest.split_whitespace().collect();
+    let ticks: f64 = f.get(11).and_then(|x| x.parse::<f64>().ok()).unwrap_or(0.0) + f.get(12).and_then(|x| x.parse::<f64>().ok()).unwrap_or(0.0);
+    ticks / 100.0
+}
+
+// like recv_timeout, but the limit is on the worker's CPU time since `cpu0` (wall-clock cap = 30 x the limit)
+fn recv_cpu_limited(w: &Worker, cpu0: f64, limit: Duration) -> Result<Option<String>, ()> {
+    let wall = std::time::Instant::now();
+    loop {
+        match w.rx.recv_timeout(Duration::from_millis(100)) {
+            Ok(x) => return Ok(x),
+            Err(mpsc::RecvTimeoutError::Disconnected) => return Ok(None),
+            Err(mpsc::RecvTimeoutError::Timeout) => {
+                if cpu_seconds(w.child.id()) - cpu0 > limit.as_secs_f64() || wall.elapsed() > limit * 30 {
+                    return Err(());
+                }
+            }
+        }
+    }
+}
+
 pub fn run_batched(kind: &str, extra: &[String], items: &[String], timeout: Duration, batch: usize) -> Vec<Answer> {
+    run_full(kind, extra, items, timeout, batch, false)
+}
+
+pub fn run_cpu_limited(kind: &str, extra: &[String], items: &[String], cpu_limit: Duration) -> Vec<Answer> {
+    run_full(kind, extra, items, cpu_limit, 1, true)
+}
+
+pub fn run_full(kind: &str, extra: &[String], items: &[String], timeout: Duration, batch: usize, cpu: bool) -> Vec<Answer> {
     let n = crate::util::nthreads().min(items.len().max(1));
     let next = AtomicUsize::new(0);
     let out: Mutex<Vec<(usize, Answer)>> = Mutex::new(Vec::with_capacity(items.len()));
@@ -90,7 +123,9 @@ pub fn run_batched(kind: &str, extra: &[String], items: &[String], timeout: Dura
                         let ok = w.stdin.write_all(buf.as_bytes()).and_then(|_| w.stdin.flush()).is_ok();
                         let mut failed = !ok;
                         while !failed && i < hi {
-                            match w.rx.recv_timeout(timeout) {
+                            let cpu0 = if cpu { cpu_seconds(w.child.id()) } else { 0.0 };
+                            let got = if cpu { recv_cpu_limited(&w, cpu0, timeout).map_err(|_| mpsc::RecvTimeoutError::Timeout) } else { w.rx.recv_timeout(timeout) };
+                            match got {
                                 Ok(Some(l)) => {
                                     local.push((i, Answer::Line(l)));
                                     i += 1;
